@@ -53,11 +53,51 @@ type leaseRec struct {
 	b      *Backend
 	ttl    map[clientv3.LeaseID]int64
 	expiry map[clientv3.LeaseID]int64
+	virt   map[clientv3.LeaseID]bool
 	Calls  []string
 }
 
+// virtualOffset: in virtual-time runs every lease is granted with this many
+// extra real seconds, so that a slow (loaded) run can never let the etcd server
+// expire a lease in real time; the recorder maps granted TTLs back, so the code
+// under test sees exactly the TTL it asked for.
+const virtualOffset = 1000000
+
+func (l *leaseRec) off() int64 {
+	if l.b.Real {
+		return 0
+	}
+	return virtualOffset
+}
+
+func (l *leaseRec) TimeToLive(ctx context.Context, id clientv3.LeaseID, opts ...clientv3.LeaseOption) (*clientv3.LeaseTimeToLiveResponse, error) {
+	r, err := l.Lease.TimeToLive(ctx, id, opts...)
+	if err == nil && r != nil && r.GrantedTTL > 0 {
+		l.mu.Lock()
+		_, virt := l.virt[id]
+		l.mu.Unlock()
+		if virt {
+			r.GrantedTTL -= virtualOffset
+			if r.TTL > 0 {
+				r.TTL -= virtualOffset
+			}
+		}
+	}
+	return r, err
+}
+
 func (l *leaseRec) Grant(ctx context.Context, ttl int64) (*clientv3.LeaseGrantResponse, error) {
-	r, err := l.Lease.Grant(ctx, ttl)
+	off := l.off()
+	if ttl <= 0 {
+		off = 0
+	}
+	r, err := l.Lease.Grant(ctx, ttl+off)
+	if err == nil && off > 0 {
+		r.TTL -= off
+		l.mu.Lock()
+		l.virt[r.ID] = true
+		l.mu.Unlock()
+	}
 	if err == nil {
 		l.mu.Lock()
 		l.ttl[r.ID] = ttl
@@ -70,6 +110,13 @@ func (l *leaseRec) Grant(ctx context.Context, ttl int64) (*clientv3.LeaseGrantRe
 
 func (l *leaseRec) KeepAliveOnce(ctx context.Context, id clientv3.LeaseID) (*clientv3.LeaseKeepAliveResponse, error) {
 	r, err := l.Lease.KeepAliveOnce(ctx, id)
+	if err == nil && r != nil {
+		l.mu.Lock()
+		if l.virt[id] {
+			r.TTL -= virtualOffset
+		}
+		l.mu.Unlock()
+	}
 	if err == nil {
 		l.mu.Lock()
 		if t, ok := l.ttl[id]; ok {
@@ -119,7 +166,7 @@ func NewEtcd(t *testing.T) *Backend {
 	}
 	b := &Backend{Name: "etcd", S: m}
 	b.cli = embedded.NewCluster(t, cfg.Etcd.Prefix).RandClient()
-	b.lease = &leaseRec{Lease: b.cli.Lease, b: b, ttl: map[clientv3.LeaseID]int64{}, expiry: map[clientv3.LeaseID]int64{}}
+	b.lease = &leaseRec{Lease: b.cli.Lease, b: b, ttl: map[clientv3.LeaseID]int64{}, expiry: map[clientv3.LeaseID]int64{}, virt: map[clientv3.LeaseID]bool{}}
 	b.cli.Lease = b.lease
 	return b
 }
